@@ -134,6 +134,21 @@ CHECKS["C17"]["text"] += " staticroute destinations are also given un-normalised
 CHECKS["C14"]["text"] += " DHCPv4 chains [server_id, X] for every other built-in plugin X, one at a time: the reply still carries this server's identifier."
 CHECKS["C15"]["text"] += " Option 82 sub-option variants (agent circuit-id, link selection, server-id override) are part of the request alphabet."
 CHECKS["C20"]["text"] += " Base patterns include IPv4-mapped and IPv4-compatible addresses (11 patterns)."
+# ---- additions of seed round 6
+CHECKS["C01"]["text"] += " Modes 'graphs': the state graphs of C02 (requests, restarts, aging, read-only lease database) and C08 (all hint shapes, Release/Rebind, aging by an hour and by two days) are explored breadth-first under id C01 within a time budget (150 s quick, 25 min thorough) looking only for crashes, locks left held and non-termination."
+CHECKS["C02"]["text"] += " Requests also carry option 61 (an opaque identifier shared by all clients; the conventional 01||chaddr form): the binding stays a function of the hardware address."
+CHECKS["C07"]["text"] += " Far hints: pools of 2^25..2^27 blocks (thorough 2^29) and IPv4 ranges of 2^25 addresses, hints naming the last block, blocks just past 2^24+2^16, 2^25, 2^26 on a fresh allocator and after three allocations."
+CHECKS["C08"]["text"] += " Release and Rebind messages naming the client's own prefix address with the exact, a shorter and a longer length are part of the alphabet (for a Release only the safety clauses are asserted). Aging by two days is a second aging operation with its own flag in the state key. The search stops after the first level that produced a violation."
+CHECKS["C09"]["text"] += " Release/Rebind ops and the two-day aging as in C08."
+CHECKS["C10"]["text"] += " Binding runs with the real inotify watcher, one process per spelling of the configured path (clean, dir/./f, dir//f, dir/sub/../f, ./f, symlink into another directory): a well-formed rewrite must be loaded; verdicts only when the clean spelling (control) loads."
+CHECKS["C11"]["text"] += " Size dimension: option 82 of 1..255 octets x option 61 of 2..255 x option 57 {absent, 300, 576, 1500} x giaddr x type x chain."
+CHECKS["C13"]["text"] += " Binding run through the real server.Start on loopback sockets (both protocols): a request sent from inside the set-up function of each configured plugin must stay unanswered; after Start returns the reply carries the markers of both plugins in configured order."
+CHECKS["C13"]["note"] = "Synthetic plugins are registered through plugins.RegisterPlugin. server.Start is executed only in the loopback binding run (needs root for the DHCPv4 relay port 67; skipped, not failed, when sockets cannot be opened)."
+CHECKS["C14"]["text"] += " Server Identifier variants include DUIDs of 130, 131, 200, 500 and 1000 octets and the own DUID padded to 131/300."
+CHECKS["C15"]["text"] += " The hardware type of the request varies over {1, 6, 32, 255}."
+CHECKS["C16"]["text"] += " Wide scenarios: 1200 (thorough 6000) requests of different clients are handled one at a time and all in flight at once (round-robin policy schedule); replies, answered transactions and distinct addresses/prefixes must agree."
+CHECKS["C16"]["technique"] += "; plus one policy-driven (round-robin) schedule with 1200/6000 handler threads in flight"
+CHECKS["C18"]["text"] += " Plugin items include argument strings with literal quotes, backslashes, '#', ',' ';' and escaped tab/newline (arguments are exactly the whitespace-separated fields)."
 ALL = ["C%02d" % i for i in range(1, 21)]
 NA_REASON = "check not built yet in this session (planned, see DESIGN.md section 5); will be claimed once its machinery exists"
 m = {
